@@ -355,6 +355,12 @@ def run(pid, tier, seed, oracle_names, title, feats=None, check_c07=False, extra
         for k, c in enumerate(cu):
             c["id"] = "cu%d" % k
         cases += cu
+    if pid == "C05":
+        # capacity excess as an objective (Engine.v cap_obj_terms): the capacity constraint switched off, factor and offset per resource
+        co = E.make_cases(seed * 1009 + 5055, nh // 2, size=size, nops=nops, feats=dict(feats or {}, capobj=True, capacity=True), mode=mode)
+        for k, c in enumerate(co):
+            c["id"] = "co%d" % k
+        cases += co
     if pid == "C19":
         # the caller may declare that travel durations satisfy the triangle inequality (API only; the latest-start / latest-end
         # exact checks are then switched off and the estimates trusted): metric models without duration groups / multipliers, where
